@@ -224,6 +224,74 @@ def normalise(edges, inits):
     return edges, [cfgadapter.canon_state(s) for s in inits]
 
 
+OPTS = {
+    "--host": "str", "--port": "int", "--rate": "float", "--debug": "on", "--no-debug": "off", "--log-level": "str",
+    "--db-host": "str", "--db-pool-size": "int", "--db-ssl": "on", "--no-db-ssl": "off", "--db-auth-user-name": "str",
+}
+DESTS = [["host"], ["port"], ["rate"], ["debug"], ["log_level"], ["db", "host"], ["db", "pool_size"], ["db", "ssl"], ["db", "auth", "user_name"]]
+
+
+def driver(cinco, desc, seed, n_traces, length):
+    import random
+
+    rng = random.Random(seed)
+    traces = []
+
+    def value(kind):
+        if kind == "int":
+            return rng.choice([str(rng.randint(-2, 12000)), " 7 ", "x1", "3.0"])
+        if kind == "float":
+            return rng.choice(["%d.5" % rng.randint(0, 9), str(rng.randint(0, 5)), "inf", "nope"])
+        return rng.choice(["info", "DEBUG", " debug ", "h.example", "bob", "", "a b"])
+
+    for _ in range(n_traces):
+        w = World(cinco, desc)
+        events = []
+        for _ in range(length):
+            if rng.random() < 0.3:
+                p, k, v = rng.choice([
+                    ([], "port", {"t": "int", "i": rng.randint(1, 9999)}),
+                    ([], "debug", {"t": "bool", "b": rng.random() < 0.5}),
+                    (["db"], "ssl", {"t": "bool", "b": rng.random() < 0.5}),
+                    (["db"], "host", {"t": "str", "s": list("db%d" % rng.randint(0, 9))}),
+                    ([], "log_level", {"t": "str", "s": list(rng.choice(["debug", "INFO", "bad"]))}),
+                    (["db", "auth"], "user_name", {"t": "str", "s": list("u%d" % rng.randint(0, 9))}),
+                ])
+                ev = {"op": "Set", "p": p, "k": k, "v": v}
+            else:
+                argv = []
+                for _ in range(rng.randint(0, 4)):
+                    if rng.random() < 0.07:
+                        argv.append({"o": list(rng.choice(["--bogus", "--por", "--no-port"]))})
+                        continue
+                    o = rng.choice(sorted(OPTS))
+                    kind = OPTS[o]
+                    if kind in ("on", "off"):
+                        argv.append({"o": list(o)} if rng.random() < 0.95 else {"o": list(o), "v": list("1")})
+                    else:
+                        argv.append({"o": list(o), "v": list(value(kind))} if rng.random() < 0.95 else {"o": list(o)})
+                ignore = rng.sample(DESTS, rng.choice([0, 0, 1, 2, 3]))
+                ev = {"op": "Override", "argv": argv, "ignore": ignore}
+            # a value that starts with "-" would be read as an option by argparse: skip those
+            if ev["op"] == "Override" and any("v" in t and "".join(t["v"]).startswith("-") for t in ev["argv"]):
+                continue
+            # "--opt" without its value swallows the next token in argparse: keep it last
+            if ev["op"] == "Override":
+                av = ev["argv"]
+                bad = [i for i, t in enumerate(av) if "v" not in t and OPTS.get("".join(t["o"])) in ("str", "int", "float")]
+                if bad and bad[0] != len(av) - 1:
+                    continue
+            res = w.step(ev)
+            obs = w.observe()
+            rec = dict(ev)
+            rec["out"] = res["out"]
+            rec["ns"] = res.get("ns", [])
+            rec["cfg"] = obs["cfg"]
+            events.append(rec)
+        traces.append({"init": {}, "events": events})
+    return traces
+
+
 def run(tier, seed):
     cinco = common.import_repo()
     out = common.Outcome("C16")
@@ -248,13 +316,33 @@ def run(tier, seed):
             "spec->code: %s differs from the specification: %s" % ({k: v for k, v in m.ev.items() if k in ("op", "p", "k", "ignore")}, m.detail[:400]),
             m.to_json(),
         )
+    # code -> spec
+    from .. import tracecheck
+
+    ntr, ltr = (200, 10) if tier == "quick" else (3000, 16)
+    traces = driver(cinco, desc, seed, ntr, ltr)
+    tcfg = os.path.join(d, "trace.cfg")
+    with open(tcfg, "w") as fp:
+        fp.write(CFG.format(depth=999).replace("INIT Init", "INIT TraceInit").replace("NEXT Next", "NEXT TraceNext").replace("VIEW View", "VIEW TraceView") + "ACTION_CONSTRAINT Report\n")
+    verdicts, tstats = tracecheck.validate("Trace_Arg.tla", tcfg, traces)
+    for v in [v for v in verdicts if not v.accepted][:15]:
+        k = (v.at or v.consumed + 1) - 1
+        e = v.trace["events"][k] if k < len(v.trace["events"]) else {}
+        out.violation(
+            "trace:%s:%s" % (e.get("op"), ",".join(v.bad_inv or v.bad_obs or ["not-enabled"])),
+            "code->spec: recorded command-line trace rejected: %s" % v.describe()[:300],
+            v.to_json(),
+        )
     distinct = {common.hash_case([cf, ck]) for cf, ck, _ in g.cases()}
     out.coverage = {
         "states": res.distinct,
         "transitions": res.generated,
         "exhaustive": True,
         "tlc_instance": "MC_Arg SchemaG MaxDepth=%d, %d command lines x 3 ignore lists" % (depth, 17),
-        "traces_validated_against_impl": stats["cases"],
+        "traces_validated_against_impl": stats["cases"] + len(verdicts),
+        "code_to_spec_traces": len(verdicts),
+        "code_to_spec_events": sum(len(t["events"]) for t in traces),
+        "code_to_spec_tlc_states": tstats["states"],
         "spec_to_code_by_op": stats["by_op"],
         "evaluations": stats["cases"],
         "distinct_nontrivial": len(distinct),
